@@ -82,22 +82,23 @@ def scanAux : Nat → List Char → List ScanItem
 /-- what `_analyze_string_cmdsubs s` re-analyses, in order -/
 def scanItems (s : String) : List ScanItem := scanAux (s.toList.length + 1) s.toList
 
-/-- `_arith_expansion_texts`: the raw texts of the `$(( … ))` expansions in a word's source -/
-def arithSpan : List Char → Nat → List Char → List Char × List Char
-  | [], _, acc => (acc.reverse, [])
-  | '(' :: t, d, acc => arithSpan t (d + 1) ('(' :: acc)
-  | ')' :: t, d, acc => if d = 0 then (acc.reverse, t.drop 1) else arithSpan t (d - 1) (')' :: acc)
-  | c :: t, d, acc => arithSpan t d (c :: acc)
+/-- what follows the first `$((` of a word's source, if there is one -/
+def afterArithOpen : List Char → Option (List Char)
+  | [] => none
+  | '$' :: '(' :: '(' :: t => some t
+  | _ :: t => afterArithOpen t
 
-def arithTextsAux : Nat → List Char → List (List Char)
-  | 0, _ => []
-  | _, [] => []
-  | n + 1, '$' :: '(' :: '(' :: t =>
-    let (body, rest) := arithSpan t 0 []
-    body :: arithTextsAux n rest
-  | n + 1, _ :: t => arithTextsAux n t
+/-- `str.replace("$((", "((")` -/
+def dropArithDollars : List Char → List Char
+  | [] => []
+  | '$' :: '(' :: '(' :: t => '(' :: '(' :: dropArithDollars t
+  | c :: t => c :: dropArithDollars t
 
+/-- `_arith_expansion_texts`: the rest of the word after its first `$((`, inner `$((` openers
+    reduced to `((` – the end of an arithmetic expansion is deliberately not delimited -/
 def arithTexts (value : String) : List String :=
-  (arithTextsAux (value.toList.length + 1) value.toList).map String.ofList
+  match afterArithOpen value.toList with
+  | some t => [String.ofList (dropArithDollars t)]
+  | none => []
 
 end Dippy
